@@ -365,6 +365,10 @@ const LINES: &[&str] = &[
   "",
   "let x = #",
   "/* ü */ f(#, 0)",
+  // suppression comments: one silencing a rule WITHOUT fix, one silencing a fixable rule, one unused
+  "// ast-grep-ignore: foo-call\nfoo(#)",
+  "// ast-grep-ignore: no-zero, zero-both, zero-left\nf(0, #)",
+  "// ast-grep-ignore: foo-call\nlet y = #",
 ];
 
 fn gen_text(rng: &mut Rng, serial: &mut u64) -> String {
